@@ -246,7 +246,7 @@ PROPS = {
                      thorough=dict(chunks=16, cases=60, large=6, sweep=1)),
                 # files left behind by histories with finalizes and rejected writes are files too
                 dict(cmd="writer", spec="Trace_Writer", histfile=True,
-                     quick=dict(chunks=4, maxlen=3, random=4, modeltypes=0, nopath=1),
+                     quick=dict(chunks=4, maxlen=2, random=4, modeltypes=0, nopath=1),
                      thorough=dict(chunks=8, maxlen=3, random=30, modeltypes=3))],
         rule="a case = the bytes left by the real writer (cursor+drop, cursor+finalize, by path) for 0..4 shapes; "
              "the TLA+ strict validator/decoder StrictShp runs on those bytes",
@@ -306,6 +306,8 @@ PROPS = {
         stages=[dict(cmd="codec", spec="Trace_Codec",
                      quick=dict(chunks=6, cases=10, large=1, nonan=1),
                      thorough=dict(chunks=16, cases=60, large=6, sweep=1, nonan=1)),
+                # shapes obtained from geo-types geometries (From<Line>, From<Polygon>, ...) carry a box too
+                dict(cmd="geo", spec="Trace_Geo", quick=dict(chunks=3, cases=300), thorough=dict(chunks=8, cases=3000)),
                 dict(cmd="writer", spec="Trace_Writer", histfile=True,
                      quick=dict(chunks=4, maxlen=2, random=6, modeltypes=0, rank=1),
                      thorough=dict(chunks=12, maxlen=3, random=40, modeltypes=4, rank=1))],
